@@ -1094,7 +1094,13 @@ func (e *Engine) evalValue(st *State, fr *frame, in ssa.Value) (Val, string) {
 			tw, tsigned, toInt := intTypeInfo(in.Type(), e.WordBits)
 			fw, _, fromInt := intTypeInfo(in.X.Type(), e.WordBits)
 			if toInt && fromInt && tw < fw && !tsigned && intForm(f) {
-				if _, isC := f.Const(); !isC {
+				dropsLive := false
+				for _, bit := range e.toBV(f, fw, false).Bits[tw:] {
+					if bit.Kind != '0' {
+						dropsLive = true // otherwise the ordinary truncation is already exact
+					}
+				}
+				if _, isC := f.Const(); !isC && dropsLive {
 					facts := e.factsOf(st.conds)
 					max := formRat(new(big.Rat).SetInt(new(big.Int).Sub(new(big.Int).Lsh(big.NewInt(1), uint(tw)), big.NewInt(1))))
 					if lo, _ := e.proveGE0(f, facts); lo {
